@@ -540,3 +540,37 @@ def real_vm_run(data):
         return "OK " + render_val(val) + " | " + render_events(w)
     except Exception:
         return "RENDER-ERR"
+
+
+# ---------------------------------------------------------------- C05 layer B: exec of the decompile
+def real_py_eval(data):
+    """'OK <value> | <events>' of exec(ast.unparse(Pickled.load(data).ast)) under the inert stand-ins
+    (rendered like real_vm_run), 'ERR' when the program raises, 'NORESULT' when it binds no result,
+    'PARSE-ERR' / 'FK-ERR' / 'SKIP' when there is no decompiled program to run."""
+    from fickling.fickle import Pickled
+    try:
+        p = Pickled.load(data)
+    except Exception:
+        return "PARSE-ERR"
+    try:
+        module = p.ast
+    except RecursionError:
+        return "SKIP"
+    except Exception:
+        return "FK-ERR"
+    try:
+        src = ast.unparse(module)
+    except RecursionError:
+        return "SKIP"                # cyclic / very deep AST: no finite print-out
+    except Exception:
+        return "RENDER-ERR"
+    rv, w, err = exec_decompiled(src)
+    if err:
+        return "SKIP" if err == "RecursionError" else "ERR"
+    if not any(isinstance(st, ast.Assign) and isinstance(st.targets[0], ast.Name)
+               and st.targets[0].id == "result" for st in module.body):
+        return "NORESULT"
+    try:
+        return "OK " + render_val(rv) + " | " + render_events(w)
+    except Exception:
+        return "RENDER-ERR"
